@@ -1237,6 +1237,61 @@ fn same_result(x: &anyhow::Result<()>, y: &anyhow::Result<()>) -> bool {
     }
 }
 
+/// C06 at the CKKS layer: ckks_encrypt_sk takes (mask source, error source): the mask columns depend on the mask seed only,
+/// the body follows the error seed, and the routine is a deterministic function of its seeds
+pub fn run_enc_seeds(c: &EncCase) -> Verdict {
+    use poulpy_ckks::leveled::CKKSEncrypt;
+    use poulpy_hal::layouts::{ZnxInfos, ZnxView};
+    let cx = ctx(c.pset as usize % 2);
+    let p = cx.p;
+    let (n, b) = (p.n, p.base2k);
+    let mut sx = Sx::new(false, 0, cx.scratch_bytes);
+    let k_enc = (c.limbs.clamp(2, 8) as usize).min(p.k / b) * b;
+    let prec = CKKSMeta { log_delta: 12, log_budget: 4 };
+    if prec.min_k((b as u32).into()).as_usize() > k_enc {
+        return Verdict::pass(false, &["ckks_encrypt_sk", "skipped:plaintext_wider_than_ciphertext"]);
+    }
+    let m = n / 2;
+    let (re, im) = gen_slots(m, 0.9, c.seed);
+    let mut rnx = CKKSPlaintextVecRnx::<f64>::alloc(n).unwrap();
+    cx.encoder.encode_reim(&mut rnx, &re, &im).unwrap();
+    let mut pt = alloc_pt_vec_znx((n as u32).into(), (b as u32).into(), prec);
+    rnx.to_znx(&mut pt).unwrap();
+    let mut lay = glwe_layout(&p);
+    lay.k = (k_enc as u32).into();
+    let enc = EncryptionLayout::new_from_default_sigma(lay).unwrap();
+    let mut run = |xa: u64, xe: u64| -> Option<(Vec<i64>, Vec<i64>)> {
+        let mut ct = CKKSCiphertext::alloc((n as u32).into(), (k_enc as u32).into(), (b as u32).into());
+        cx.module.ckks_encrypt_sk(&mut ct, &pt, &cx.sk, &enc, &mut Source::new(seed32(c.seed, xa)), &mut Source::new(seed32(c.seed, xe)), sx.roomy()).ok()?;
+        let d = ct.data();
+        let (mut body, mut mask) = (vec![], vec![]);
+        for j in 0..d.size() {
+            body.extend_from_slice(d.at(0, j));
+            for col in 1..d.cols() {
+                mask.extend_from_slice(d.at(col, j));
+            }
+        }
+        Some((body, mask))
+    };
+    let (Some(r1), Some(r1b), Some(r2), Some(r3)) = (run(3, 4), run(3, 4), run(3, 5), run(6, 4)) else {
+        return Verdict::fail("ckks_encrypt_sk|encryption-error", format!("backend={B_NAME}: ckks_encrypt_sk refused a plaintext that fits the ciphertext\ncase={c:?}"));
+    };
+    let fail = |what: &str, d: &str| Verdict::fail(format!("ckks_encrypt_sk|{what}"), format!("backend={B_NAME} ckks_encrypt_sk(.., source_xa, source_xe, ..): {d}\ncase={c:?}"));
+    if r1 != r1b {
+        return fail("not-deterministic", "two runs with the same seeds differ");
+    }
+    if r1.1 != r2.1 {
+        return fail("mask-depends-on-error-seed", "same mask seed, other error seed: the mask columns differ");
+    }
+    if r1.0 == r2.0 {
+        return fail("body-independent-of-error-seed", "same mask seed, other error seed: the body is unchanged");
+    }
+    if r1.1 == r3.1 {
+        return fail("mask-independent-of-mask-seed", "other mask seed, same error seed: the mask columns are unchanged");
+    }
+    Verdict::pass(true, &["ckks_encrypt_sk", B_NAME])
+}
+
 pub fn run_composite(c: &CompCase) -> Verdict {
     let cx = ctx(c.pset as usize % 2);
     let mut sx = Sx::new(false, 0, cx.scratch_bytes);
